@@ -65,6 +65,94 @@ type c03H3Scenario struct {
 	head     bool   // the client sends HEAD
 	interim  int    // informational (103/100/102) HEADERS frames in front of the final response
 	late     bool   // the surplus bytes go out later, after the client drained the declared body
+	tail     []byte // raw bytes appended after the last complete frame (a cut frame header / a cut unknown frame)
+	unknown  bool   // unknown-type (GREASE) frames are interleaved with the DATA frames
+	trailers bool   // a trailers HEADERS frame follows the DATA frames
+}
+
+// c03H3Wire is what the peer writes for a scenario: the first burst, an optional later burst, and
+// the decoded field list of every HEADERS frame in order (QPACK is external to the model).
+type c03H3Wire struct {
+	first, later []byte
+	fieldLists   [][][2]string
+}
+
+func c03H3Block(fields [][2]string) []byte {
+	var hb bytes.Buffer
+	enc := qpack.NewEncoder(&hb)
+	for _, kv := range fields {
+		enc.WriteField(qpack.HeaderField{Name: kv[0], Value: kv[1]})
+	}
+	return hb.Bytes()
+}
+
+func c03H3Plan(sc c03H3Scenario) (w c03H3Wire) {
+	if sc.ending == "close-before-headers" {
+		return w
+	}
+	for j := 0; j < sc.interim; j++ {
+		f := [][2]string{{":status", []string{"103", "100", "102"}[j%3]}, {"link", "</s.css>; rel=preload"}}
+		w.fieldLists = append(w.fieldLists, f)
+		w.first = append(w.first, c03H3Frame(0x1, c03H3Block(f))...)
+	}
+	st := sc.status
+	if st == 0 {
+		st = 200
+	}
+	f := [][2]string{{":status", strconv.Itoa(st)}, {"content-type", "application/octet-stream"}}
+	if sc.declared >= 0 {
+		f = append(f, [2]string{"content-length", strconv.Itoa(sc.declared)})
+	}
+	w.fieldLists = append(w.fieldLists, f)
+	w.first = append(w.first, c03H3Frame(0x1, c03H3Block(f))...)
+	payload := []byte(sc.body)[:sc.send]
+	if !sc.late {
+		payload = append(payload, bytes.Repeat([]byte("X"), sc.extra)...)
+	}
+	n := sc.frames
+	if n < 1 {
+		n = 1
+	}
+	for i := 0; i < n && len(payload) > 0; i++ {
+		k := len(payload) / (n - i)
+		if k == 0 {
+			k = len(payload)
+		}
+		last := i == n-1 || k == len(payload)
+		if sc.unknown {
+			// a frame of a reserved-for-greasing type (0x1f*N+0x21) must be skipped
+			w.first = append(w.first, c03H3Frame(0x21+0x1f*uint64(i), []byte("grease"))...)
+		}
+		if last && strings.HasPrefix(sc.ending, "midframe") {
+			// a DATA frame header announcing k bytes followed by only half of them
+			b := quicvarint.Append(nil, 0x0)
+			b = quicvarint.Append(b, uint64(k))
+			w.first = append(w.first, b...)
+			w.first = append(w.first, payload[:k/2]...)
+			payload = nil
+			break
+		}
+		w.first = append(w.first, c03H3Frame(0x0, payload[:k])...)
+		payload = payload[k:]
+	}
+	if sc.late {
+		w.later = c03H3Frame(0x0, bytes.Repeat([]byte("X"), sc.extra))
+	}
+	if sc.trailers {
+		tf := [][2]string{{"x-trailer", "v"}}
+		w.fieldLists = append(w.fieldLists, tf)
+		if sc.late {
+			w.later = append(w.later, c03H3Frame(0x1, c03H3Block(tf))...)
+		} else {
+			w.first = append(w.first, c03H3Frame(0x1, c03H3Block(tf))...)
+		}
+	}
+	if sc.late {
+		w.later = append(w.later, sc.tail...)
+	} else {
+		w.first = append(w.first, sc.tail...)
+	}
+	return w
 }
 
 type c03H3Peer struct {
@@ -165,56 +253,11 @@ func (p *c03H3Peer) serveStream(conn quic.Connection, str quic.Stream) {
 		str.CancelWrite(quic.StreamErrorCode(sc.code))
 		return
 	}
-	var hb bytes.Buffer
-	enc := qpack.NewEncoder(&hb)
-	st := sc.status
-	if st == 0 {
-		st = 200
-	}
-	enc.WriteField(qpack.HeaderField{Name: ":status", Value: strconv.Itoa(st)})
-	enc.WriteField(qpack.HeaderField{Name: "content-type", Value: "application/octet-stream"})
-	if sc.declared >= 0 {
-		enc.WriteField(qpack.HeaderField{Name: "content-length", Value: strconv.Itoa(sc.declared)})
-	}
-	var out []byte
-	for j := 0; j < sc.interim; j++ {
-		var ib bytes.Buffer
-		ienc := qpack.NewEncoder(&ib)
-		ienc.WriteField(qpack.HeaderField{Name: ":status", Value: []string{"103", "100", "102"}[j%3]})
-		ienc.WriteField(qpack.HeaderField{Name: "link", Value: "</s.css>; rel=preload"})
-		out = append(out, c03H3Frame(0x1, ib.Bytes())...)
-	}
-	out = append(out, c03H3Frame(0x1, hb.Bytes())...)
-	payload := []byte(sc.body)[:sc.send]
-	if !sc.late {
-		payload = append(payload, bytes.Repeat([]byte("X"), sc.extra)...)
-	}
-	n := sc.frames
-	if n < 1 {
-		n = 1
-	}
-	for i := 0; i < n && len(payload) > 0; i++ {
-		k := len(payload) / (n - i)
-		if k == 0 {
-			k = len(payload)
-		}
-		last := i == n-1 || k == len(payload)
-		if last && strings.HasPrefix(sc.ending, "midframe") {
-			// a DATA frame header announcing k bytes followed by only half of them
-			b := quicvarint.Append(nil, 0x0)
-			b = quicvarint.Append(b, uint64(k))
-			out = append(out, b...)
-			out = append(out, payload[:k/2]...)
-			payload = nil
-			break
-		}
-		out = append(out, c03H3Frame(0x0, payload[:k])...)
-		payload = payload[k:]
-	}
-	str.Write(out)
+	w := c03H3Plan(sc)
+	str.Write(w.first)
 	if sc.late {
 		time.Sleep(40 * time.Millisecond)
-		str.Write(c03H3Frame(0x0, bytes.Repeat([]byte("X"), sc.extra)))
+		str.Write(w.later)
 	}
 	switch sc.ending {
 	case "fin", "midframe-fin":
@@ -246,11 +289,11 @@ func TestVerif_C03_h3cut(t *testing.T) {
 		}
 		return c
 	}
-	n := verifh.N(250, 2000)
+	n := verifh.N(330, 2600)
 	reached := map[string]int{}
 	knownSeen := map[string]int{}
 	failures := 0
-	rstSeq, overSeq := 0, 0
+	rstSeq, overSeq, tailSeq := 0, 0, 0
 	perName := map[string]int{}
 	tmpDir := t.TempDir()
 	for i := 0; i < n && failures < 12; i++ {
@@ -261,14 +304,17 @@ func TestVerif_C03_h3cut(t *testing.T) {
 		}
 		class := ""
 		cutAt := func() int {
-			if r.Intn(3) == 0 {
+			switch r.Intn(4) {
+			case 0:
 				return 0 // right after HEADERS
+			case 1:
+				return len(body) - 1 // exactly one byte short of the whole body
 			}
 			return r.Intn(len(body))
 		}
 		// H3_NO_ERROR 0x100 … H3_VERSION_FALLBACK 0x110 (0x10b request rejected, 0x10c request cancelled)
 		h3Codes := []uint64{0x100, 0x101, 0x102, 0x103, 0x104, 0x105, 0x106, 0x107, 0x108, 0x109, 0x10a, 0x10b, 0x10c, 0x10d, 0x10e, 0x10f, 0x110}
-		switch r.Intn(12) {
+		switch r.Intn(16) {
 		case 0, 1:
 			sc.name = "complete"
 			// controls without a body although a length is declared: HEAD, 204, 304
@@ -301,7 +347,7 @@ func TestVerif_C03_h3cut(t *testing.T) {
 				sc.name, sc.ending, sc.complete = "complete", "fin", true
 			}
 		case 9:
-			sc.name, sc.declared, sc.extra, sc.complete = "overlong", len(body), 1+r.Intn(20), false
+			sc.name, sc.declared, sc.extra, sc.complete = "overlong", len(body), verifh.Pick(r, []int{1, 1, 1 + r.Intn(20), 2 + r.Intn(19)}), false
 			switch overSeq % 4 {
 			case 1:
 				sc.name, sc.late = "overlong-late-frame", true
@@ -316,6 +362,34 @@ func TestVerif_C03_h3cut(t *testing.T) {
 			sc.name, sc.ending, sc.complete, sc.code = "close-before-headers", "close-before-headers", false, []uint64{0x100, 0x10b, 0x10c}[rstSeq%3]
 		case 11: // full body, but the stream is reset (also with H3_NO_ERROR) instead of finished
 			sc.name, sc.ending, sc.complete, sc.code = "reset-after-full-body", "reset", false, []uint64{0x100, 0x102}[rstSeq%2]
+		case 12: // FIN inside a frame HEADER: after the type, inside the length varint, inside the type varint
+			sc.send, sc.complete = cutAt(), false
+			sc.tail = [][]byte{{0x00}, {0x00, 0x40}, {0x40}, {0x01}, {0x00, 0x80, 0x00}}[tailSeq%5]
+			tailSeq++
+			sc.name = "fin-in-frame-header"
+		case 13: // FIN inside the payload of a frame the client skips (unknown type)
+			sc.send, sc.complete = cutAt(), false
+			switch tailSeq % 3 {
+			case 0: // a frame of a reserved-for-greasing type, 3 of 9 payload bytes
+				sc.tail = append(quicvarint.Append(quicvarint.Append(nil, 0x21+0x1f*7), 9), []byte("gre")...)
+				sc.name = "fin-in-skipped-frame"
+			case 1: // a SETTINGS frame (refused on a request stream, but its payload is read first), 1 of 5 bytes
+				sc.tail = []byte{0x04, 0x05, 0x01}
+				sc.name = "fin-in-settings-frame"
+			case 2: // a trailers HEADERS frame header announcing 5 bytes, and nothing of them
+				sc.tail = []byte{0x01, 0x05}
+				sc.name = "fin-in-trailer-frame"
+			}
+			tailSeq++
+		case 14: // control: unknown-type frames between the DATA frames are skipped
+			sc.name, sc.unknown = "complete-with-unknown-frames", true
+		case 15: // a trailers HEADERS frame after the DATA frames: complete, or before the declared length
+			sc.trailers = true
+			if r.Intn(2) == 0 {
+				sc.name = "complete-with-trailers"
+			} else {
+				sc.name, sc.declared, sc.send, sc.complete = "short-with-trailers", len(body), cutAt(), false
+			}
 		}
 		// a multi-step sequence on the request stream: informational responses, then the final one
 		perName[sc.name]++
@@ -349,14 +423,19 @@ func TestVerif_C03_h3cut(t *testing.T) {
 		}
 		s.Count("caller:" + callerName)
 		type out struct {
+			fx          c03First
 			first, ferr string
 			secondOK    bool
 			serr        string
 		}
+		peer.mu.Lock()
+		connsBefore := peer.conns
+		peer.mu.Unlock()
 		ch := make(chan out, 1)
 		go func() {
 			var o out
-			o.first, o.ferr = c03DoFirstM(c, method, url, stream, cc)
+			o.fx = c03DoFirstX(c, method, url, stream, cc)
+			o.first, o.ferr = o.fx.render()
 			second, err2 := c.R().Get(url)
 			if err2 == nil && second != nil && second.Response != nil {
 				if stream {
@@ -377,9 +456,56 @@ func TestVerif_C03_h3cut(t *testing.T) {
 		case <-time.After(30 * time.Second):
 			o = out{first: "hang", ferr: "no result within 30s"}
 		}
+		peer.mu.Lock()
+		dials := peer.conns - connsBefore
+		peer.mu.Unlock()
 		if c.t3 != nil {
 			c.t3.Close()
 		}
+		// the model line: the bytes of the stream, how it ends, the field lists
+		w := c03H3Plan(sc)
+		endKind := map[string]string{"fin": "fin", "midframe-fin": "fin", "reset": "reset", "midframe-reset": "reset", "close-before-headers": "reset", "conn-close": "close"}[sc.ending]
+		headSeen := o.fx.status != 0
+		segs := []string{}
+		if endKind == "fin" || headSeen {
+			// a reset / connection close discards what is still in flight: the lane cannot know how much of the
+			// body got through (the answer does not depend on it), only whether the response head did
+			if len(w.first) > 0 {
+				segs = append(segs, string(w.first))
+			}
+			if len(w.later) > 0 {
+				segs = append(segs, string(w.later))
+			}
+		}
+		var fls []string
+		for _, fl := range w.fieldLists {
+			var kv []string
+			for _, p := range fl {
+				kv = append(kv, verifh.Hex(p[0])+":"+verifh.Hex(p[1]))
+			}
+			fls = append(fls, strings.Join(kv, ","))
+		}
+		flArg := "none"
+		if len(fls) > 0 {
+			flArg = strings.Join(fls, "/")
+		}
+		mode := map[bool]string{true: "s", false: "a"}[stream]
+		line := "c03h3 " + map[bool]string{true: "1", false: "0"}[sc.head] + " " + verifh.HexList(segs) + " " + endKind + " " + flArg + " " + mode
+		impl := "fail"
+		switch {
+		case o.first == "hang":
+			impl = "hang"
+		case o.fx.ok:
+			impl = "ok status=" + strconv.Itoa(o.fx.status) + " body=" + verifh.Hex(string(o.fx.body))
+		case stream && !headSeen:
+			impl = "fail-call"
+		case stream && endKind == "fin":
+			impl = "fail-body delivered=" + verifh.Hex(string(o.fx.body))
+		case stream:
+			impl = "fail-body"
+		}
+		impl += " dials=" + strconv.Itoa(dials)
+		// second opinion: the Go-side property oracle
 		ok, why := true, ""
 		switch {
 		case o.first == "hang":
@@ -400,6 +526,10 @@ func TestVerif_C03_h3cut(t *testing.T) {
 		if !ok && strings.HasPrefix(o.first, "ok") && (sc.name == "short-fin" || sc.name == "midframe-fin") {
 			class = "h3-fin-truncated"
 		}
+		if !ok && strings.HasPrefix(o.first, "ok") && strings.HasPrefix(sc.name, "fin-in-") {
+			// the stream was finished inside a frame header / a skipped frame / right after a trailer frame header
+			class = "h3-fin-in-frame"
+		}
 		if ok && !o.secondOK {
 			ok, why = false, "second request on the same client failed: "+o.serr
 			if strings.HasPrefix(sc.name, "conn-close") {
@@ -411,26 +541,24 @@ func TestVerif_C03_h3cut(t *testing.T) {
 		}
 		reached[sc.name]++
 		s.Count("scenario:" + sc.name)
-		human := fmt.Sprintf("h3 %s declared=%d body=%d sent=%d extra=%d frames=%d caller=%s -> %s (%s) second-ok=%v",
-			sc.name, sc.declared, len(body), sc.send, sc.extra, sc.frames, callerName, c04Short(o.first), o.ferr, o.secondOK)
+		s.Count("dials:" + strconv.Itoa(dials))
+		human := fmt.Sprintf("h3 %s declared=%d body=%d sent=%d extra=%d frames=%d interim=%d tail=%x caller=%s -> %s (%s) second-ok=%v dials=%d",
+			sc.name, sc.declared, len(body), sc.send, sc.extra, sc.frames, sc.interim, sc.tail, callerName, c04Short(o.first), o.ferr, o.secondOK, dials)
 		if why != "" {
 			human += " ORACLE: " + why
 		}
 		if !ok && class != "" {
 			// report a known finding a few times only, so that it cannot crowd out an unknown one
 			knownSeen[class]++
-			if knownSeen[class] > 3 {
-				s.Count("known-not-reported-again:" + class)
-				ok = true
-			}
 		}
-		s.Observe(fmt.Sprintf("h3cut/%d/%s/%d/%d/%d", i, sc.name, sc.declared, sc.send, sc.frames), ok, class, !sc.complete, human, why)
+		s.Case(line, impl, ok, class, !sc.complete, human)
 	}
 	s.Finish()
 	if failures >= 12 {
 		return
 	}
-	for _, need := range []string{"ok", "fail", "complete", "complete-head-with-length", "complete-304-with-length", "short-fin", "reset-code-100", "reset-code-10b", "reset-code-10c", "conn-close-code-100", "conn-close-code-102", "midframe-fin", "overlong", "overlong-late-frame", "overlong-at-read-buffer", "overlong-zero-length", "interim-1xx:short-fin", "interim-1xx:overlong", "interim-1xx:complete", "close-before-headers", "reset-after-full-body"} {
+	for _, need := range []string{"ok", "fail", "complete", "complete-head-with-length", "complete-304-with-length", "short-fin", "reset-code-100", "reset-code-10b", "reset-code-10c", "conn-close-code-100", "conn-close-code-102", "midframe-fin", "overlong", "overlong-late-frame", "overlong-at-read-buffer", "overlong-zero-length", "interim-1xx:short-fin", "interim-1xx:overlong", "interim-1xx:complete", "close-before-headers", "reset-after-full-body",
+		"fin-in-frame-header", "fin-in-skipped-frame", "fin-in-settings-frame", "fin-in-trailer-frame", "complete-with-unknown-frames", "complete-with-trailers", "short-with-trailers"} {
 		if reached[need] == 0 {
 			t.Errorf("C03/h3cut never reached %q", need)
 		}
